@@ -191,7 +191,8 @@ def coalesced(col, full, offset):
                     combos = [(i,) for i in range(1, total)] + [(i, j) for i in range(headlen - 6, headlen + 1) for j in range(i + 1, min(total, headlen + 12))]
                     if full:
                         combos += [(i, j) for i in range(1, headlen, 7) for j in range(headlen - 3, min(total, headlen + 8)) if j > i]
-                for cuts in combos:
+                from harness.core import guarded_blocks
+                for cuts in guarded_blocks(combos):
                     coalesced_one(d, kind, role, ser, cuts)
                     n += 1
                     straddle = any(c_ >= headlen for c_ in cuts) and any(0 < c_ < headlen for c_ in cuts) or (len(cuts) == 1 and 0 < cuts[0] < headlen)
@@ -209,7 +210,8 @@ def rs_handshake(col, shard, nshards, stride, offset):
     d = drv.get_driver()
     server_sets = [["json", "msgpack", "cbor", "ubjson"], ["json"], ["cbor", "msgpack"]]
     vals = [v for v in range(offset, 65536, stride)][shard::nshards]
-    for v in vals:
+    from harness.core import guarded_blocks
+    for v in guarded_blocks(vals):
         b0, b1 = v >> 8, v & 0xFF
         for reserved in ((0, 0), (0, 1), (0x80, 0)) if (v % 64 == 0 or b0 == 0x7F) else ((0, 0),):
             hs = bytes([b0, b1, reserved[0], reserved[1]])
@@ -293,7 +295,8 @@ def ws_subprotocols(col, stride, offset, only=None):
     subsets = ordered_subsets(SERS)
     pairs = [(c, s) for c in subsets for s in subsets if c and s]
     d = drv.get_driver()
-    for idx, (cl, sl) in enumerate(pairs):
+    from harness.core import guarded_blocks
+    for idx, (cl, sl) in guarded_blocks(list(enumerate(pairs))):
         if only is not None:
             if (list(cl), list(sl)) != (list(only[0]), list(only[1])):
                 continue
